@@ -17,6 +17,12 @@ def make_wl(rng, k):
     spec["n_chr"] = rng.choice([3, 4, 5])
     if k is not None and k % 4 == 2:
         spec["long_locus"] = 2       # a reference isoform seen in two processing regions of one read island
+    if k is not None and k % 4 == 1:
+        # two experiments in one interpreter (--threads 1) that share some novel exons and each have some of their own
+        spec.update(n_exp=2, exp_mode="split", novel=3, novel_cov=8, novel_locus=1, outside_exon=2, novel_gene_overlap=2,
+                    genes_per_chr=max(3, spec.get("genes_per_chr", 3)), drop_chr_annotation=0)
+        opts["annotated"] = True
+        opts["force_cell"] = {"threads": 1}
     opts["annotated"] = True if spec["pre_ids"] else opts.get("annotated", True)
     return spec, opts
 
